@@ -28,6 +28,25 @@ def setup_repo(repo):
     return repo
 
 
+class _HarnessTimeout(BaseException):
+    pass
+
+
+def _kill_children():
+    """stop the processes this worker started (only its own children, found through /proc)"""
+    me = os.getpid()
+    for d in os.listdir("/proc"):
+        if not d.isdigit():
+            continue
+        try:
+            with open("/proc/%s/stat" % d) as fh:
+                ppid = int(fh.read().rsplit(")", 1)[1].split()[1])
+            if ppid == me:
+                os.kill(int(d), 9)
+        except (OSError, ValueError, IndexError):
+            pass
+
+
 def _worker(args):
     prop, ident, repo, tier, seed = args
     from pyvc import api, run
@@ -36,7 +55,26 @@ def _worker(args):
         h = [x for x in api.HARNESSES[prop] if x.ident == ident][0]
         t0 = time.time()
         if h.kind in ("data", "lemma"):
-            st, v = run.run_concrete(h, None)
+            # watchdog: a data harness runs real code (CBC, scipy, pyodesys); a change of that code may make it run for ever. After the budget
+            # the harness is abandoned and reported as undecided (never as a violation), and the solver processes it started are stopped.
+            import signal
+            budget = int(os.environ.get("VCHECK_DATA_BUDGET", "900" if tier == "quick" else "3600"))
+
+            def _alarm(signum, frame):
+                raise _HarnessTimeout("data harness exceeded its budget of %d s" % budget)
+            old_handler = signal.signal(signal.SIGALRM, _alarm)
+            signal.alarm(budget)
+            try:
+                st, v = run.run_concrete(h, None)
+            except _HarnessTimeout as ex:
+                _kill_children()
+                out["symbolic"] = {"harness": h.ident, "kind": "data", "paths": 1, "obligations": [], "unsupported": ["timeout: " + str(ex)], "error": None,
+                                   "notes": list(h.assumptions), "interpreted": {}, "seconds": time.time() - t0, "functions": h.functions}
+                out["concrete"] = None
+                return out
+            finally:
+                signal.alarm(0)
+                signal.signal(signal.SIGALRM, old_handler)
             bk, secs = getattr(v, "backends", {}), getattr(v, "seconds", {})
             obs = [{"name": "%s.%s" % (h.ident, n), "instances": 1, "status": "discharged", "seconds": secs.get(n, 0.0), "rlimit": 0,
                     "backend": [bk.get(n, "cpython")], "havoc": False, "cex": None,
